@@ -129,8 +129,9 @@ func (v *vstore) set(key, val int, cost int64, ttl int64) bool {
 			v.tr.viol(fmt.Sprintf("C06: Set(%d) with cost %d above MaxSize %d was accepted", key, cost, v.s.cap))
 		}
 		// immediately readable at the same instant
-		if e := v.resident(key); e == nil || e.value != val {
-			v.tr.viol(fmt.Sprintf("C06: Set(%d,%d) returned true but the value is not resident", key, val))
+		_, idx := v.s.index(key)
+		if se, hit := v.s.getFromShard(key, h, v.s.shards[idx]); !hit || se.value != val {
+			v.tr.viol(fmt.Sprintf("C06: Set(%d,%d,ttl %d) returned true but the value is not readable at once (hit %v)", key, val, ttl, hit))
 		}
 	} else {
 		if eff <= int64(v.s.cap) && (before != nil || dk) {
